@@ -378,7 +378,7 @@ theorem isIdChar_ne (c : Char) (h : isIdChar c = true) :
 
 /-- `QUERY_LIST_RE.search(url)` on `…watch?v=<id>&list=<playlist>` -/
 theorem queryList_video_some (id p : Str) (hid : ∀ c ∈ id, isIdChar c = true) (hp : p ≠ [])
-    (hpc : ∀ c ∈ p, c ≠ '&' ∧ c ≠ '#') :
+    (hpc : ∀ c ∈ p, c ≠ '&' ∧ c ≠ '#' ∧ c ≠ '?') :
     queryList (videoPrefix ++ id ++ (listInfix ++ p)) = some p := by
   unfold queryList
   rw [List.append_assoc, litValueSearch_skip _ _ videoPrefix _ (by decide)]
@@ -391,12 +391,12 @@ theorem queryList_video_some (id p : Str) (hid : ∀ c ∈ id, isIdChar c = true
       | 1, _ => simp [listInfix]
       | 2, _ => simp [listInfix]
       | 3, _ => simp [listInfix])]
-  have h0 : litValueHere "list=".toList stopsAmpHash (listInfix ++ p) = none := by
+  have h0 : litValueHere "list=".toList stopsAmpHashQm (listInfix ++ p) = none := by
     unfold litValueHere
     have : matchLit "list=".toList (listInfix ++ p) = none :=
       matchLit_none_of_mismatch _ listInfix p (by decide)
     rw [this]
-  have h1 : litValueHere "list=".toList stopsAmpHash ("list=".toList ++ p) = some p := by
+  have h1 : litValueHere "list=".toList stopsAmpHashQm ("list=".toList ++ p) = some p := by
     unfold litValueHere
     have : matchLit "list=".toList ("list=".toList ++ p) = some ([] ++ p) :=
       matchLit_append _ "list=".toList p [] (by decide)
@@ -404,7 +404,7 @@ theorem queryList_video_some (id p : Str) (hid : ∀ c ∈ id, isIdChar c = true
     simp only [List.nil_append]
     rw [valueRun_of_all _ p (fun c hc => by
       have := hpc c hc
-      simp [stopsAmpHash, this.1, this.2])]
+      simp [stopsAmpHashQm, this.1, this.2.1, this.2.2])]
     simp [hp]
   have e : listInfix ++ p = '&' :: ("list=".toList ++ p) := by simp [listInfix]
   rw [e] at h0 ⊢
@@ -418,7 +418,7 @@ theorem queryList_video_none (id : Str) (hid : ∀ c ∈ id, isIdChar c = true) 
     queryList (videoPrefix ++ id) = none := by
   unfold queryList
   rw [litValueSearch_skip _ _ videoPrefix _ (by decide)]
-  have := litValueSearch_skip_text "list=".toList stopsAmpHash 4 '=' (by decide) (by decide) id []
+  have := litValueSearch_skip_text "list=".toList stopsAmpHashQm 4 '=' (by decide) (by decide) id []
     (fun h => (isIdChar_ne _ (hid _ h)).1 rfl) (by intro j _; simp)
   rw [List.append_nil] at this
   rw [this]
@@ -485,15 +485,11 @@ instance (s : Str) : Decidable (PlainPlaylist s) := by unfold PlainPlaylist; inf
 def Good : Record → Prop
   | .video _ none => True
   | .video _ (some p) => PlainPlaylist p
-  | .user name => Plain name ∧ NoTrailingBlank name
-  | .channel (some cid) _ => Plain cid ∧ NoTrailingBlank cid
-  | .channel none (some name) => Plain name ∧ name ∉ blacklist
+  | .user name => Plain name ∧ Stripped name
+  | .channel (some cid) _ => Plain cid ∧ Stripped cid
+  | .channel none (some name) => Plain name
   | .channel none none => False
   | .short _ => True
-
-instance (r : Record) : Decidable (Good r) := by
-  unfold Good
-  split <;> infer_instance
 
 /-- table obligations used by the round trip (proved by `decide` in `Props/C19/Youtube.lean`) -/
 structure Obligations : Prop where
@@ -614,8 +610,14 @@ theorem second_two (w name : Str) (hw : w ≠ [] ∧ '/' ∉ w) (hne : name ≠ 
   rw [segs_two w name hw hne hns hb]
   simp
 
+theorem cutAmp_eq_self (x : Str) (h : '&' ∉ x) : cutAmp x = x := by
+  unfold cutAmp
+  exact takeWhile_all _ _ (fun c hc => by
+    have : c ≠ '&' := fun e => h (e ▸ hc)
+    simpa using this)
+
 theorem routePath_user (fix : Bool) (name query : Str) (pl : Option Str) (hne : name ≠ [])
-    (hns : '/' ∉ name) (hb : NoTrailingBlank name) :
+    (hns : '/' ∉ name) (hamp : '&' ∉ name) (hst : Stripped name) :
     routePath fix ("/user/".toList ++ name) query pl = .ok (some (.user name)) := by
   unfold routePath
   have h0 : ¬ rstripChars ("/user/".toList ++ name) ['/'] = "/watch".toList := by
@@ -628,11 +630,11 @@ theorem routePath_user (fix : Bool) (name query : Str) (pl : Option Str) (hne : 
   simp only [h1, h2, h3, h4, Bool.or_self, if_true]
   unfold routeUser
   have : "/user/".toList ++ name = '/' :: ("user".toList ++ '/' :: name) := by simp
-  rw [this, second_two _ name (by decide) hne hns hb]
-  simp [hne]
+  rw [this, second_two _ name (by decide) hne hns hst.2]
+  simp [cutAmp_eq_self name hamp, strip_of_stripped name hst, hne]
 
 theorem routePath_channel (fix : Bool) (cid query : Str) (pl : Option Str) (hne : cid ≠ [])
-    (hns : '/' ∉ cid) (hb : NoTrailingBlank cid) :
+    (hns : '/' ∉ cid) (hamp : '&' ∉ cid) (hst : Stripped cid) :
     routePath fix ("/channel/".toList ++ cid) query pl = .ok (some (.channel (some cid) none)) := by
   unfold routePath
   have h0 : ¬ rstripChars ("/channel/".toList ++ cid) ['/'] = "/watch".toList := by
@@ -648,8 +650,8 @@ theorem routePath_channel (fix : Bool) (cid query : Str) (pl : Option Str) (hne 
   simp only [Bool.false_eq_true, if_false]
   unfold routeChannel
   have : "/channel/".toList ++ cid = '/' :: ("channel".toList ++ '/' :: cid) := by simp
-  rw [this, second_two _ cid (by decide) hne hns hb]
-  simp [hne]
+  rw [this, second_two _ cid (by decide) hne hns hst.2]
+  simp [cutAmp_eq_self cid hamp, strip_of_stripped cid hst, hne]
 
 theorem idChars_facts (id : Str) (hid : ∀ c ∈ id, isIdChar c = true) (hl : id.length = 11) :
     id ≠ [] ∧ '/' ∉ id ∧ NoTrailingBlank id := by
@@ -711,7 +713,7 @@ theorem routePath_shorts (id query : Str) (pl : Option Str) (hv : is_youtube_vid
   simp [ht, hv]
 
 theorem routePath_name (ob : Obligations) (fix : Bool) (name query : Str) (pl : Option Str) (hne : name ≠ [])
-    (hns : '/' ∉ name) (hat : ∀ r, name ≠ '@' :: r) (hbl : name ∉ blacklist) :
+    (hns : '/' ∉ name) (hamp : '&' ∉ name) (hat : ∀ r, name ≠ '@' :: r) (hbl : name ∉ blacklist) :
     routePath fix ('/' :: name) query pl = .ok (some (.channel none (some name))) := by
   unfold routePath
   have hr : rstripChars ('/' :: name) ['/'] = '/' :: name := rstrip_slash_field ['/'] name hne hns
@@ -754,7 +756,7 @@ theorem routePath_name (ob : Obligations) (fix : Bool) (name query : Str) (pl : 
       simp [this, hne']
   have hbl' : blacklist.contains name = false := by
     rw [List.contains_eq_mem]; simpa using hbl
-  simp only [hcount, if_true, hl1, hbl', hl2]
+  simp only [hcount, if_true, hl1, hl2, cutAmp_eq_self name hamp, hbl']
   simp [hne]
 
 theorem routePath_watch (id rest : Str) (pl : Option Str) (hv : is_youtube_video_id id = true)
@@ -830,7 +832,7 @@ theorem parse_video_url (puny : Str → Str) (t : T) (hT : KnowsWww puny t) (ob 
       · show videoPrefix ++ id ++ (if p ≠ [] then listInfix ++ p else []) = _
         simp [hp.1]
       · rw [← List.append_assoc]
-        exact queryList_video_some id p hid hp.1 (fun c hc => ⟨(hp.2 c hc).1, (hp.2 c hc).2.1⟩)
+        exact queryList_video_some id p hid hp.1 (fun c hc => ⟨(hp.2 c hc).1, (hp.2 c hc).2.1, (hp.2 c hc).2.2.1⟩)
   rw [hurl]
   have hpct : '%' ∉ videoPrefix ++ (id ++ tail) := by
     intro h
@@ -903,20 +905,21 @@ theorem reparse_of_good (puny : Str → Str) (t : T) (hT : KnowsWww puny t) (ob 
       (by decide) hg.1
     have hu : recordUrl (.user name) = "https://www.youtube.com".toList ++ "/user/".toList ++ name := rfl
     rw [hu, this]
-    exact routePath_user true name [] _ hv (fun h => (hg.1 _ h).1 rfl) hg.2
+    exact routePath_user true name [] _ hv (fun h => (hg.1 _ h).1 rfl) (fun h => (hg.1 _ h).2.2.2.1 rfl) hg.2
   | .channel (some cid) none, hv, hg =>
     have := parse_path_url puny t hT ob "/channel/".toList cid true (by decide) (by decide) ⟨_, rfl⟩
       (by decide) hg.1
     have hu : recordUrl (.channel (some cid) none) =
         "https://www.youtube.com".toList ++ "/channel/".toList ++ cid := rfl
     rw [hu, this]
-    exact routePath_channel true cid [] _ hv (fun h => (hg.1 _ h).1 rfl) hg.2
+    exact routePath_channel true cid [] _ hv (fun h => (hg.1 _ h).1 rfl) (fun h => (hg.1 _ h).2.2.2.1 rfl) hg.2
   | .channel none (some name), hv, hg =>
     have := parse_path_url puny t hT ob "/".toList name true (by decide) (by decide) ⟨_, rfl⟩
-      (by decide) hg.1
+      (by decide) hg
     have hu : recordUrl (.channel none (some name)) =
         "https://www.youtube.com".toList ++ "/".toList ++ name := rfl
     rw [hu, this]
-    exact routePath_name ob true name [] _ hv.1 (fun h => (hg.1 _ h).1 rfl) hv.2 hg.2
+    exact routePath_name ob true name [] _ hv.1 (fun h => (hg _ h).1 rfl) (fun h => (hg _ h).2.2.2.1 rfl)
+      hv.2.1 hv.2.2
 
 end Ural.Youtube
